@@ -15,6 +15,7 @@ from lib import (Check, COMMON_TRUSTED, INT_MAX, INT_MIN, NCPU, REPO, VERIF, com
                  functions_of, known_for, run_coq_files, run_py)
 from mcvm import VM, Invalid, OutOfFuel, wrap
 import c02_gen as G
+import c02_ctx as X
 
 PROP = "C02"
 
@@ -389,6 +390,324 @@ def eval_check(cases, rng, n):
     return [kept[i]["stmt"] for i in bad], [sels[i] for i in bad_sel], ""
 
 
+# ------------------------------------------------------------------ statements in a one-command position
+XHEADER = ("From Coq Require Import ZArith String List Bool.\n"
+           "From JMCV Require Import MC.Syntax Model.Names Model.Expr Model.ExprSpec Model.ExprCtx Run.C02.\n"
+           "Import ListNotations.\nOpen Scope string_scope.\n")
+CTX_USER = ["$g", "$h", "$o", "$p", "$r", "$after", "$bystander"]
+
+
+def stmt_src(c):
+    """the statement without its final `;`"""
+    return c["stmt"][:-1]
+
+
+def gen_ctx_programs(cases, rng, tier):
+    """-> list of programs: dict(stmts=[dict(case=index, ctx=...)], cert=int, coq=bool, src=str)"""
+    ok = [i for i, c in enumerate(cases) if not c["real"].startswith("<") and len(c["stmt"]) < 400]
+    multi = [i for i in ok if cases[i]["real"].count("\n") >= 1 or cases[i]["real"] == ""]
+    empty = [i for i in ok if cases[i]["real"] == ""]
+    single = [i for i in ok if i not in set(multi)]
+    if not ok:
+        return []
+
+    def pick():
+        r = rng.random()
+        pool = multi if (r < 0.72 and multi) else empty if (r < 0.8 and empty) else single if single else ok
+        return rng.choice(pool)
+    n_coq = 900 if tier == "quick" else 5200
+    n_py = 240 if tier == "quick" else 1400
+    progs = []
+    for k in range(n_coq + n_py):
+        coq = k < n_coq
+        kinds = X.KINDS_COQ if coq else X.KINDS_PY
+        n_st = 2 if (coq and rng.random() < 0.2) else 1
+        idx = [pick() for _ in range(n_st)]
+        cert = cases[idx[0]]["cert"]
+        idx = [i for i in idx if cases[i]["cert"] == cert] or idx[:1]
+        stmts = []
+        for j, i in enumerate(idx):
+            c = cases[i]
+            kind = kinds[(k + j) % len(kinds)] if rng.random() < 0.8 else rng.choice(kinds)
+            if not coq and kind != "AS":
+                ctx = dict(kind=kind, guard=[], ret=False, chain=[], prefix="",
+                           cond=rng.choice(["$g >= 1", "$g < 0", "$g >= 1 && $h < 3", "$g == $h", "!($g > 2)"]))
+                if kind == "IFELSE":
+                    ctx["other"] = rng.choice(single + multi)
+            else:
+                ctx = X.gen_ctx(rng, kind, c["target"], G.vars_of(c["e"]))
+            stmts.append(dict(case=i, ctx=ctx))
+        progs.append(dict(stmts=stmts, cert=cert, coq=coq))
+    for p in progs:
+        var = CERTS[p["cert"]]["VAR"]
+        parts = []
+        for s in p["stmts"]:
+            c, ctx = cases[s["case"]], s["ctx"]
+            if ctx["kind"] == "IFB":
+                parts.append(f"if ({ctx['cond']}) {c['stmt']}")
+            elif ctx["kind"] == "IFELSE":
+                parts.append(f"if ({ctx['cond']}) {c['stmt']} else {cases[ctx['other']]['stmt']}")
+            else:
+                parts.append(X.place_src(ctx, stmt_src(c), var, G.clean_sel))
+        p["src"] = "function f() { " + " ".join(parts) + " $after = 7; }\nfunction main() { $r = f(); }"
+    return progs
+
+
+COND_PY = {"$g >= 1": lambda e: e["$g"] >= 1, "$g < 0": lambda e: e["$g"] < 0,
+           "$g >= 1 && $h < 3": lambda e: e["$g"] >= 1 and e["$h"] < 3, "$g == $h": lambda e: e["$g"] == e["$h"],
+           "!($g > 2)": lambda e: not e["$g"] > 2}
+
+
+def compile_ctx(progs):
+    jobs = [dict(src=p["src"], cert=cert_text(CERTS[p["cert"]])) for p in progs]
+    chunks = [jobs[i:i + 150] for i in range(0, len(jobs), 150)]
+    with ThreadPoolExecutor(max_workers=NCPU) as ex:
+        results = [r for rs in ex.map(lambda ch: run_py(VERIF / "harness" / "c02_run.py", ch, timeout=900), chunks) for r in rs]
+    for p, r in zip(progs, results):
+        cert = CERTS[p["cert"]]
+        if r["ok"]:
+            p["fns"] = functions_of(r["files"])
+            p["real"] = p["fns"].get("f", "<missing function>")
+            p["anon"] = X.anon_functions(p["fns"], cert["PRIVATE"])
+            load = p["fns"].get(cert["LOAD"], "")
+            p["ints"] = sorted({int(m.group(1)) for m in re.finditer(
+                r"^scoreboard players set (-?\d+) %s (-?\d+)$" % re.escape(cert["INT"]), load, re.M)})
+            p["exc"] = None
+        else:
+            p["fns"], p["anon"], p["ints"] = {}, [], []
+            p["real"] = "<diag>" if r["jmc"] else f"<crash {r['exc']}>"
+            p["exc"] = dict(cls=r["exc"], msg=r["msg"][:300], frame=r["frame"])
+
+
+def prog_vars(p, cases):
+    names = set(CTX_USER)
+    for s in p["stmts"]:
+        c = cases[s["case"]]
+        names |= G.vars_of(c["e"]) | {c["target"]} | X.ctx_vars(s["ctx"])
+        if "other" in s["ctx"]:
+            o = cases[s["ctx"]["other"]]
+            names |= G.vars_of(o["e"]) | {o["target"]}
+    return sorted(names)
+
+
+def value_of(c):
+    def f(env):
+        v = G.eval_expr(c["e"], env)
+        return G.form_sem(c["form"], env[c["target"]], v)
+    return f
+
+
+def ref_stmts(p, cases, env):
+    """the program as statements for X.ref_run (braces-less if = a guard evaluated by Python)"""
+    out = []
+    for s in p["stmts"]:
+        c, ctx = cases[s["case"]], s["ctx"]
+        if ctx["kind"] in ("IFB", "IFELSE"):
+            hold = COND_PY[ctx["cond"]](env)
+            # an always-true / always-false guard: the condition is evaluated on the state BEFORE the statement, and
+            # braces-less programs have ONE statement
+            g = [] if hold else [(True, "$g", "m", (1, 0))]
+            if hold or ctx["kind"] == "IFB":
+                out.append(dict(ctx=dict(ctx, guard=g), target=c["target"], value=value_of(c), has_commands=True))
+            else:
+                o = cases[ctx["other"]]
+                out.append(dict(ctx=dict(ctx, guard=[]), target=o["target"], value=value_of(o), has_commands=True))
+        else:
+            out.append(dict(ctx=ctx, target=c["target"], value=value_of(c), has_commands=c["real"] != ""))
+    return out
+
+
+def ctx_states(p, cases, rng, n=10):
+    names = prog_vars(p, cases)
+    vs = sorted({G.canon_var(v) for v in names})
+    small = [0, 1, -1, 2, 3, -3, 5, 7]
+    out, seen = [], set()
+    tries = 0
+    guards = [s["ctx"]["guard"] for s in p["stmts"] if s["ctx"]["guard"]]
+    while len(out) < n and tries < 60:
+        tries += 1
+        pool = small if tries % 3 else GRID
+        cv = {v: rng.choice(pool) for v in vs}
+        env = {v: cv[G.canon_var(v)] for v in names}
+        sig = tuple(X.guard_holds(g, env) for g in guards)
+        # keep states of both outcomes of every guard: prefer a signature not seen yet, fill up with anything
+        if sig in seen and len(out) >= n // 2 and tries < 40 and len(seen) < 2 ** len(guards):
+            continue
+        seen.add(sig)
+        out.append(env)
+    return out
+
+
+def run_ctx_state(p, cases, env):
+    cert = CERTS[p["cert"]]
+    r = X.ref_run(ref_stmts(p, cases, env), env, G.canon_var)
+    if r is X.UNDEF:
+        return None
+    exp, returned = r
+    if p["real"].startswith("<"):
+        kind = "internal-error" if p["real"].startswith("<crash") else "rejected-with-diagnostic"
+        return dict(kind=kind, exception=p["exc"], init=env)
+    vm = X.RVM(p["fns"], max_steps=40000)
+    for n in p["ints"]:
+        vm.s[(str(n), cert["INT"])] = n
+    for name, val in env.items():
+        vm.s[vm_key(score_of(name, cert))] = val
+    fns = {k: vm_text(v) for k, v in p["fns"].items()}
+    vm.funcs = fns
+    try:
+        vm.call("TEST:main")
+    except Invalid as e:
+        return dict(kind="invalid-command", detail=str(e), init=env)
+    except OutOfFuel:
+        return dict(kind="no-termination", init=env)
+    if isinstance(returned, int):
+        exp[G.canon_var("$r")] = returned
+    for name in env:
+        if name == "$r" and returned == "unknown":
+            continue
+        k = vm_key(score_of(name, cert))
+        want = exp[G.canon_var(name)]
+        got = vm.s.get(k)
+        if got != want:
+            return dict(kind="wrong-value-in-context", variable=name, expected=want, actual=got, init=env,
+                        note="reference: the whole statement runs iff the tests of its prefix hold on the state before it; "
+                             "`return run` leaves f with the statement's value; `$after = 7` runs iff f was not left")
+    return None
+
+
+def ctx_oracle(p, cases, rng, n=10):
+    if p["real"].startswith("<crash"):
+        return dict(kind="internal-error", exception=p["exc"])
+    for env in ctx_states(p, cases, rng, n):
+        f = run_ctx_state(p, cases, env)
+        if f:
+            return f
+    return None
+
+
+def xcase_term(p, cases):
+    nm = f"nm{p['cert']}"
+    stmts = coq_list(X.xstmt_term(s["ctx"], nm, G.svar_term(cases[s["case"]]["target"]), G.OPC[cases[s["case"]]["form"]],
+                                  G.expr_term(cases[s["case"]]["e"]), G.svar_term) for s in p["stmts"])
+    return (f"mkXCase {nm} {stmts} true {coq_str(p['real'])} {X.fns_term('TEST', p['anon'])} "
+            f"{coq_list(coq_z(n) for n in p['ints'])}")
+
+
+def coq_xsummaries(progs, cases, per_file=300):
+    files = []
+    for fi, start in enumerate(range(0, len(progs), per_file)):
+        chunk = progs[start:start + per_file]
+        body = XHEADER
+        for i, cert in enumerate(CERTS):
+            body += f"Definition nm{i} := {names_term(cert)}.\n"
+        body += "Definition cases := [\n" + ";\n".join(xcase_term(p, cases) for p in chunk) + \
+            "\n].\nEval vm_compute in xsummarize cases.\n"
+        files.append((f"xcases_{fi}.v", body))
+    outs = run_coq_files(PROP, files, clean=False, timeout=900)
+    res = dict(mismatch=[], outside=[], errors=[])
+    for fi, (ok, out) in enumerate(outs):
+        base = fi * per_file
+        if not ok:
+            res["errors"].append(f"{files[fi][0]}: {out[-2500:]}")
+            continue
+        mm, um = parse_nested(out)
+        res["mismatch"] += [base + i for i in mm]
+        res["outside"] += [base + i for i in um]
+    return res
+
+
+def xmodel_outputs(progs, cases, idxs):
+    if not idxs:
+        return {}
+    body = XHEADER
+    for i, cert in enumerate(CERTS):
+        body += f"Definition nm{i} := {names_term(cert)}.\n"
+    for i in idxs:
+        body += f"Eval vm_compute in xmodel_text ({xcase_term(progs[i], cases)}).\n"
+    (ok, out), = run_coq_files(PROP, [("xshow.v", body)], clean=False, timeout=200)
+    if not ok:
+        return {i: "<coq evaluation failed> " + out[-300:] for i in idxs}
+    blocks = re.split(r"\n\s*=\s", "\n" + out)[1:]
+    res = {}
+    for i, blk in zip(idxs, blocks):
+        ss = [m.group(1).replace('""', '"') for m in re.finditer(r'"((?:[^"]|"")*)"', blk, re.S)]
+        res[i] = ss[0] if ss else ""
+    return res
+
+
+def ctx_replay_obj(p, cases, fail, model=None):
+    return dict(kind=(fail or {}).get("kind", "context-correspondence-differs"), mode="context", source=p["src"],
+                jmc_txt=CERTS[p["cert"]],
+                statements=[dict(statement=cases[s["case"]]["stmt"], context=s["ctx"]["kind"],
+                                 placed=X.place_src(s["ctx"], stmt_src(cases[s["case"]]), CERTS[p["cert"]]["VAR"], G.clean_sel)
+                                 if s["ctx"]["kind"] not in ("IFB", "IFELSE") else f"if ({s['ctx']['cond']}) …")
+                            for s in p["stmts"]],
+                emitted={k: v for k, v in p["fns"].items() if k in ("f", "main") or "/anonymous/" in k or "/if_else/" in k},
+                emitted_f=p["real"], int_constants=p["ints"], failure=fail, model_output=model,
+                expected="a statement behind `execute <tests> run` / `return run` / `$o =` / a braces-less `if` runs as a WHOLE iff "
+                         "the tests hold on the state before it (and does nothing otherwise); `return run` leaves the function with "
+                         "the statement's value; every target of a chained assignment receives the value",
+                replay_cmd="./check C02 --replay <this file>")
+
+
+def ctx_phase(ck, cases, tier, phases_lap):
+    progs = gen_ctx_programs(cases, ck.rng, tier)
+    compile_ctx(progs)
+    phases_lap("ctx-compile")
+    fails = {}
+    for i, p in enumerate(progs):
+        f = ctx_oracle(p, cases, ck.rng, 10)
+        if f:
+            fails[i] = f
+    phases_lap("ctx-oracle")
+    coq_idx = [i for i, p in enumerate(progs) if p["coq"]]
+    res = coq_xsummaries([progs[i] for i in coq_idx], cases)
+    res["mismatch"] = [coq_idx[i] for i in res["mismatch"]]
+    res["outside"] = [coq_idx[i] for i in res["outside"]]
+    phases_lap("ctx-coq")
+    for e in res["errors"]:
+        ck.violation(dict(kind="context-correspondence-file-failed", log=e), no_input=True)
+    mism = res["mismatch"]
+    # report: failing inputs first (one per (context kind, failure kind)), then silent text differences
+    show = xmodel_outputs(progs, cases, [i for i in mism if progs[i]["coq"]][:6])
+    seen = set()
+    for i in sorted(fails):
+        key = (tuple(s["ctx"]["kind"] for s in progs[i]["stmts"])[0], fails[i]["kind"])
+        if key in seen or len(seen) >= 6:
+            continue
+        seen.add(key)
+        ck.violation(ctx_replay_obj(progs[i], cases, fails[i], show.get(i)))
+    silent = [i for i in mism if i not in fails]
+    if silent and not fails:
+        i = silent[0]
+        o = ctx_replay_obj(progs[i], cases, None, show.get(i))
+        o.update(theorem="C02_context_execute / C02_partial_in_context / C02_context_return / C02_partial_chained speak about "
+                         "Model/ExprCtx.v (place, wrap_under, chain_stmt), which no longer matches the code",
+                 n_differing=len(mism), others=[progs[j]["src"] for j in silent[1:5]])
+        ck.violation(o, no_input=True)
+    kinds = {}
+    for p in progs:
+        for s in p["stmts"]:
+            kinds[s["ctx"]["kind"]] = kinds.get(s["ctx"]["kind"], 0) + 1
+    fk = {}
+    for f in fails.values():
+        fk[f["kind"]] = fk.get(f["kind"], 0) + 1
+    lines = {}
+    for p in progs:
+        for s in p["stmts"]:
+            r = cases[s["case"]]["real"]
+            n = 0 if r == "" else r.count("\n") + 1
+            key = "0" if n == 0 else "1" if n == 1 else "2-3" if n <= 3 else "4+"
+            lines[key] = lines.get(key, 0) + 1
+    return dict(context_programs=len(progs), context_programs_tied_to_model=len(coq_idx),
+                context_kinds=kinds, context_statement_lines=lines,
+                context_two_statement_programs=sum(1 for p in progs if len(p["stmts"]) == 2),
+                context_private_functions=sum(len(p["anon"]) for p in progs),
+                context_disagreements=len(mism), context_outside_model=len(res["outside"]),
+                context_failing_programs=len(fails), context_failing_by_kind=fk,
+                context_samples=[dict(source=progs[i]["src"], f=progs[i]["real"]) for i in (0, 1, len(progs) - 1) if i < len(progs)])
+
+
 # ------------------------------------------------------------------ main
 def replay_obj(c, fail, model=None):
     return dict(kind=fail["kind"] if fail else "correspondence-differs", statement=c["stmt"], target=c["target"],
@@ -496,6 +815,7 @@ def main(tier: str) -> int:
             ck.violation(dict(kind="harness-clean_sel-differs-from-ExprSpec.clean_sel", selectors=bad_sel[:5]), no_input=True)
 
     lap("report+evalcheck")
+    ctx_cov = ctx_phase(ck, cases, tier, lap)
     distinct = len({(c["target"], c["form"], c["src"], c["cert"]) for c in cases if c["e"][0] != "v" and c["e"][0] != "c"})
     sizes = {}
     for c in cases:
@@ -526,13 +846,50 @@ def main(tier: str) -> int:
         selector_spellings=len(selectors_of(cases)),
         bracketed_failing=sum(1 for i in fails if cases[i]["bracketed"]),
         phase_seconds=phases,
+        **ctx_cov,
         correspondence="model text == real function body (or both <diag> / same <crash Class>), __int__ constants equal as sets",
     ))
     return ck.finish()
 
 
+def replay_context(o) -> int:
+    cert = o["jmc_txt"]
+    r, = compile_batch([dict(src=o["source"], cert=cert_text(cert))])
+    print("program  :", o["source"])
+    print("expected :", o["expected"])
+    if not r["ok"]:
+        print(f"actual   : compiler raised {r['exc']} ({'JMC diagnostic' if r['jmc'] else 'internal error'}): {r['msg'][:200]}")
+        return 1
+    fns = functions_of(r["files"])
+    for k in sorted(fns):
+        if k in ("f", "main") or "/anonymous/" in k or "/if_else/" in k:
+            print(f"-- {k}\n{fns[k]}")
+    f = o.get("failure")
+    if not f or "init" not in f or "variable" not in f:
+        print("model    :\n" + str(o.get("model_output")))
+        same = fns.get("f", "") == o.get("emitted_f")
+        print("emitted f is", "unchanged" if same else "different from the recorded one")
+        return 1
+    load = fns.get(cert["LOAD"], "")
+    vm = X.RVM({k: vm_text(v) for k, v in fns.items()}, max_steps=40000)
+    for m in re.finditer(r"^scoreboard players set (-?\d+) %s (-?\d+)$" % re.escape(cert["INT"]), load, re.M):
+        vm.s[(m.group(1), cert["INT"])] = int(m.group(2))
+    for name, val in f["init"].items():
+        vm.s[vm_key(score_of(name, cert))] = val
+    try:
+        vm.call("TEST:main")
+        got = vm.s.get(vm_key(score_of(f["variable"], cert)))
+    except Invalid as e:
+        got = f"invalid command: {e}"
+    print("initial  :", f["init"])
+    print(f"expected {f['variable']}:", f.get("expected"), " actual:", got)
+    return 0 if got == f.get("expected") else 1
+
+
 def replay(path: str) -> int:
     o = json.loads(open(path).read())
+    if o.get("mode") == "context":
+        return replay_context(o)
     cert = o["jmc_txt"]
     r, = compile_batch([dict(src=o["source"], cert=cert_text(cert))])
     print("statement:", o["statement"])
